@@ -51,25 +51,25 @@ impl<C: Cursor> Cursor for ConcatenatingCursor<C> {
         let mut right = self.cursors.len() - 1;
 
         while left < right {
-            let mut mid = (left + right) / 2;
-            self.reposition(mid)?;
-            self.cursors[self.position].seek_to_last()?;
-            self.cursors[self.position].prev()?;
-            while mid > left && self.cursors[self.position].key().is_none() {
-                mid -= 1;
-                self.reposition(mid)?;
+            let mid = (left + right) / 2;
+            // Find the last key of the rightmost non-empty cursor in left..=mid.
+            let mut probe = mid;
+            loop {
+                self.reposition(probe)?;
                 self.cursors[self.position].seek_to_last()?;
                 self.cursors[self.position].prev()?;
+                if probe == left || self.cursors[self.position].key().is_some() {
+                    break;
+                }
+                probe -= 1;
             }
-            if mid == left {
-                break;
-            }
-            // SAFETY(rescrv):  We have a loop invariant above that goes until is_some or the
-            // conditional right above us.
-            if self.cursors[self.position].key().unwrap() >= kref {
-                right = mid;
-            } else {
-                left = mid + 1;
+            match self.cursors[self.position].key() {
+                Some(last) if last >= kref => {
+                    right = probe;
+                }
+                _ => {
+                    left = mid + 1;
+                }
             }
         }
         self.reposition(left)?;
